@@ -6,9 +6,10 @@
      ProofsProgress  an accepted list is performed when nothing constrains allocation
      ProofsOwn   descriptors the shell opens for itself: scripts (move_fd_internal), pipes
      ProofsPipe  the parent's side of a pipeline
-     ProofsScript  nested compound commands, functions, the . built-in, command substitution *)
+     ProofsScript  nested compound commands, functions, the . built-in, command substitution
+     ProofsSave  the saving dup as a failure point; backups while a command runs *)
 From Yv Require Export Common.Base C09.Kernel C09.Model C09.Spec
-  C09.ProofsTab C09.ProofsList C09.ProofsVal C09.ProofsSpec C09.ProofsProgress C09.ProofsOwn C09.ProofsPipe C09.ProofsScript C09.Symlink C09.Examples.
+  C09.ProofsTab C09.ProofsList C09.ProofsVal C09.ProofsSpec C09.ProofsProgress C09.ProofsOwn C09.ProofsPipe C09.ProofsScript C09.ProofsSave C09.Symlink C09.Examples.
 
 Local Open Scope N_scope.
 
